@@ -418,6 +418,23 @@ def r3_raise_before_store(R) -> None:
             R.check(known, si.q, f'setitem-label-unknown-name:{stmt_key(a)[:50]}', 'obj[name, label] = value for a name that is not a variable raises KeyError before anything is set',
                     f"`{text(a)[:70]}` looks the series up as '_' + {text(nm)} without checking that `{text(nm)}` is a variable: obj['attributes', 0] = x overwrites the container's own "
                     f"list of attribute names (`_attributes`) instead of raising KeyError, with strict=True too", where=si.where(n))
+    # add_variable keeps the new series under '_' + name: that slot must be free - the container's own bookkeeping lives
+    # under such keys too (`_attributes`, `_strict`; `_LAGS` / `_LEADS` on a linker), and a variable of that name would replace it
+    av_ = Fn(R, f'{VC}.add_variable')
+    for n in av_.cfg.nodes:
+        a = n.ast
+        if n.kind == 'stmt' and isinstance(a, ast.Assign) and len(a.targets) == 1:
+            ds = dict_slot(a.targets[0])
+            nm = is_underscore_key(ds[1]) if ds is not None and ds[0] == 'self' else None
+            if nm is None:
+                continue
+            key_ = text(ds[1])
+            free = av_.holds(n.id, f'{key_} in self.__dict__', False) or av_.holds(n.id, f'{key_} not in self.__dict__') \
+                or av_.holds(n.id, f"hasattr(self, {key_})", False)
+            R.check(free, av_.q, 'add-variable-slot-free', "add_variable only takes a storage slot ('_' + name) that is not in use",
+                    f"`{text(a)[:60]}` stores the new series under {key_} without checking that the entry is free: add_variable('attributes', 1) replaces the container's list of "
+                    f"attribute names (`_attributes`) with an array, add_variable('strict', 0) its strict flag - every later attribute assignment then fails, and strict mode is lost",
+                    where=av_.where(n))
     # ModelInterface.add_variable: names extended only after the base call succeeded
     g = Fn(R, f'{MI}.add_variable')
     base = g.nodes_with(lambda x: is_super_call(x, 'add_variable'))
